@@ -317,6 +317,26 @@ def modify_rules(check: Check, p5: bool = True, l1: bool = True, h1: bool = True
         check.require(ok, "H1", "Consequent.modify/hedge-order",
                       "hedges of a conclusion are applied from the one nearest the term outwards (reversed)" if ok else
                       "hedges of a conclusion are not applied in reverse reading order", loc(fn, hl[0][0] if hl else head))
+        # every hedge is applied whatever the degree is: only the structural conditions (enabled, has a variable/term, ...) guard the hedge loop
+        odd = []
+        for h, _ in hl:
+            for g, pol, gn in cfg.must_guards(h):
+                if gn in body and any(classify(a, None) is None for a in _atoms(r.term(g, gn))):
+                    odd.append((gn, unparse(g)))
+            odd += [(x, type(x.ast).__name__.lower()) for x in early_exits(cfg, h)]
+        check.require(bool(hl) and not odd, "H1", "Consequent.modify/hedges-unconditional",
+                      "all hedges of an enabled conclusion are applied, whatever the activation degree is" if not odd else
+                      f"the hedges of a conclusion are applied only when `{odd[0][1][:70]}`: hedges such as `not` and `any` map 0 to 1, so skipping "
+                      "them changes the contribution of the conclusion", loc(fn, odd[0][0] if odd else head))
+
+
+def _atoms(t: Term) -> list[Term]:
+    """The atomic conditions of a guard (through not / and / or)."""
+    if t[0] == "unop" and t[1] == "not":
+        return _atoms(t[2])
+    if t[0] == "bool":
+        return [a for x in t[2] for a in _atoms(x)]
+    return [t]
 
 
 def _prefix_to(cfg, head):
